@@ -43,6 +43,15 @@ class SymBool:
     def __invert__(s): return SymBool(z3.Not(s.t))
     def __xor__(s, o): return SymBool(z3.Xor(s.t, _tb(o)))
     def logical_not(s): return SymBool(z3.Not(s.t))
+    # arithmetic on flags (msk.sum() > 0, norm += msk): 0/1 valued
+    def __add__(s, o): return Sym(tz(s)) + o
+    __radd__ = __add__
+    def __mul__(s, o): return Sym(tz(s)) * o
+    __rmul__ = __mul__
+    def __gt__(s, o): return Sym(tz(s)) > o
+    def __ge__(s, o): return Sym(tz(s)) >= o
+    def __lt__(s, o): return Sym(tz(s)) < o
+    def __le__(s, o): return Sym(tz(s)) <= o
     def __repr__(s): return "SymBool(%s)" % s.t
 def _tb(o):
     if isinstance(o, SymBool): return o.t
@@ -298,6 +307,20 @@ class NPProxy:
             return out
         return _np.clip(x, lo, hi)
     INTS_AS_OBJECTS = False
+def _mixed_ufunc(name):
+    """object arrays that mix Sym with plain python numbers (np.where(valid, quot, 0)): apply the method / the numpy function per element"""
+    def f(self, x, *a, **k):
+        if not a and not k and isinstance(x, _np.ndarray) and x.dtype == object:
+            out = _np.empty(x.shape, dtype=object)
+            for idx in _np.ndindex(x.shape):
+                v = x[idx]; out[idx] = getattr(v, name)() if isinstance(v, Sym) else Sym(tz(v))._mixed(name)
+            return out.view(type(x)) if isinstance(x, SymArray) else out
+        return getattr(_np, name)(x, *a, **k)
+    return f
+def _sym_mixed(s, name):
+    return getattr(s, name)()
+Sym._mixed = _sym_mixed
+for _n in ("arcsin", "arccos", "sin", "cos", "sqrt", "degrees", "radians"): setattr(NPProxy, _n, _mixed_ufunc(_n))
 NP = NPProxy()
 
 class MathProxy:
